@@ -182,6 +182,9 @@ class Shim:
         sf = self.plan.get('sysfault')     # [k, errno] : the k-th syscall-level mutation fails
         if sf is not None and self.nmut == sf[0]:
             raise OSError(sf[1], os.strerror(sf[1]))
+        for sf2 in self.plan.get('sysfaults') or []:      # several of them
+            if self.nmut == sf2[0]:
+                raise OSError(sf2[1], os.strerror(sf2[1]))
 
     def after_mutation(self):
         """SIGINT-like interruption: KeyboardInterrupt raised right after the k-th syscall-level mutation returned"""
